@@ -27,7 +27,8 @@ RULE = ('file: 1-4 dimensions (length 1-4, at most one unlimited), 1-5 variables
         '(copy, subsetVariables, renameVariable(s), renameDimension(s), insertDimension, removeSingleton, reorderDimensions, '
         'sliceDimensions incl. several index arrays, applyAlongDimensions, stack, mask, eval, binary operators, interpDimension) '
         'whose arguments are drawn valid for the CURRENT state of the real file (mostly) or malformed (unknown key, index out of range, '
-        'unequal index-array lengths, mismatching mask shape); structure observed after every step. Non-trivial = at least one '
+        'unequal index-array lengths, mismatching mask shape); arithmetic operands are derived from the current file (itself, sliced, repeated, subset, '
+        'a dimension of length 1 inserted at the front/middle/end = higher rank, singleton dimensions removed = lower rank, dimensions reordered); structure observed after every step. Non-trivial = at least one '
         'successful step that changed the structure. A fifth of the cases are IOAPI-convention files (ioapi_base.from_arrays, 4-D variables plus '
         'optionally a 2-D (ROW,COL) variable) driven through multi-dimension sliceDimensions calls mixing index lists, ints and slices on '
         'TSTEP/LAY/ROW/COL, plus apply/subset/mask/eval/stack/renameVariable/copy; there well-formedness and "TSTEP unlimited" are evaluated '
@@ -231,7 +232,14 @@ def derive(f, spec):
     if k == 'renamevar':
         return f.renameVariable(spec[1], spec[2])
     if k == 'insert':
-        return f.insertDimension(**{spec[1]: spec[2]})
+        # [insert, name, length, before, after]: a higher-rank operand (numpy prepends/aligns broadcast axes)
+        before = spec[3] if len(spec) > 3 else None
+        after = spec[4] if len(spec) > 4 else None
+        return f.insertDimension(before=before, after=after, **{spec[1]: spec[2]})
+    if k == 'reorder':
+        return f.reorderDimensions(tuple(spec[1]), tuple(spec[2]))
+    if k == 'remove':
+        return f.removeSingleton()
     raise ValueError(k)
 
 
@@ -786,6 +794,19 @@ def gen_op(rng, st, malformed):
             cands += [['slice01', d], ['rep', d]]
         if vn:
             cands.append(['subset', [v for v in vn if rng.random() < 0.6]])
+        if fresh_d:
+            # right operand of HIGHER rank: a length-1 (sometimes longer) dimension inserted at the front, in the middle or at the end
+            pos = rng.choice(['front', 'before', 'after']) if dn else 'front'
+            ref = rng.choice(dn) if dn else None
+            cands.append(['insert', rng.choice(fresh_d), rng.choice([1, 1, 1, 2]),
+                          ref if pos == 'before' else None, ref if pos == 'after' else None])
+            cands.append(['insert', rng.choice(fresh_d), 1, None, None])
+        if any(n == 1 for n in dl.values()):
+            cands.append(['remove'])                  # right operand of LOWER rank (singleton dimensions removed)
+        if len(dn) >= 2 and rng.random() < 0.5:
+            perm = list(dn)
+            rng.shuffle(perm)
+            cands.append(['reorder', list(dn), perm])
         return dict(op='binop', other=rng.choice(cands), sym=rng.choice(['+', '-', '*', '/']))
     if k == 'interp':
         cv = [v[0] for v in vs if v[0] in dn and v[1] == [v[0]]]
